@@ -70,7 +70,8 @@ def mk_sizer(c, broker):
         srcs = [TwoSidedSource(c['prices'], c['two_sided'] == 'crossed')]
         if c.get('nan_first'):
             srcs = [NoBarYetSource()] + srcs
-        dh = BacktestDataHandler(None, data_sources=srcs)
+        # (the handler's universe argument plays no part in pricing: here one that lists none of the assets)
+        dh = BacktestDataHandler((StaticUniverse(['EQ:NOT-LISTED']) if c.get('handler_universe') else None), data_sources=srcs)
     else:
         dh = StubPrices(c['prices'])
     if c['kind'] == 'long_only':
@@ -224,8 +225,17 @@ def rebalance_seq(c):
         except Exception as e:
             target = ['err', type(e).__name__]
         olist = [[o.asset, num(o.quantity)] for o in orders]
-        for o in orders:
-            broker.submit_order('p', o)
+        if c.get('via_handler'):
+            # the orders travel through the real ExecutionHandler (market-order algorithm), built on the round's universe
+            from qstrader.execution.execution_handler import ExecutionHandler
+            from qstrader.execution.execution_algo.market_order import MarketOrderExecutionAlgorithm
+
+            eh = ExecutionHandler(broker, 'p', StaticUniverse(list(r['universe'])), submit_orders=True,
+                                  execution_algo=MarketOrderExecutionAlgorithm(), data_handler=dh)
+            eh(t, orders)
+        else:
+            for o in orders:
+                broker.submit_order('p', o)
         broker.update(ts(r['t_open']))
         after = [[a, num(v['quantity'])] for a, v in broker.get_portfolio_as_dict('p').items()]
         out.append({'held': held, 'equity': equity, 'alloc': alloc, 'orders': olist, 'target': target, 'after': after,
